@@ -188,7 +188,7 @@ func TestC04_CLI(t *testing.T) {
 	}
 	defer os.RemoveAll(base)
 	os.Unsetenv("NEBULA_CA_PASSPHRASE")
-	vk.Check(t, 1200, func(rt *rapid.T) {
+	vk.Check(t, 4000, func(rt *rapid.T) {
 		c04cliDirCounter++
 		dir := filepath.Join(base, fmt.Sprint(c04cliDirCounter))
 		if err := os.MkdirAll(dir, 0o755); err != nil {
